@@ -63,7 +63,8 @@ Fixpoint run4 (c : cfg) (ips : list ip) (ms : list mac) (s : state) (a : amap) (
   end.
 
 Definition dispatch (kind : string) (args : list string) : string :=
-  if String.eqb kind "t4" then
+  if String.eqb kind "rt" then out3 (rt_model args) "-" "-"     (* real-time histories: Model/TablesShow.v *)
+  else if String.eqb kind "t4" then
     match args with
     | ctok :: t0 :: itok :: mtok :: optoks =>
         match cfg_of_tok ctok, Z_of_dec t0, ips_of_tok itok, macs_of_tok mtok, ops_of_toks optoks with
